@@ -277,6 +277,12 @@ class TaskCoordinator:
                         raise first_keyboard_interrupt
                 else:
                     return task_results
+            except KeyboardInterrupt:
+                # An interrupt can also arrive while the handlers above
+                # are being entered or left. However it got here, no
+                # task may be left running once we have raised.
+                runner.stop()
+                raise
             finally:
                 if task_monitor is not None:
                     task_monitor.update()
